@@ -86,8 +86,7 @@ ExprFromJ(x) ==
             LET s == SeqFromJ(b) IN IF s.ok THEN Ok([op |-> "ext", fn |-> NameOfCps(k), args |-> s.v]) ELSE PFail
 
 \* scope entities: implicit {"type", "id"} or explicit {"__entity": {"type", "id"}}
-ScopeEntFromJ(e) ==
-  IF JIsO(e) /\ JGet(e, K_Entity) # Missing THEN EntityFromJ(JGet(e, K_Entity)) ELSE EntityFromJ(e)
+ScopeEntFromJ(e) == EntRefFromJ(e)
 ScopeFromJ(x) ==
   IF ~JIsO(x) \/ JGet(x, K_op) = Missing \/ ~JIsS(JGet(x, K_op)) THEN PFail
   ELSE LET op == JGet(x, K_op).s IN
